@@ -14,3 +14,13 @@ claim("C16",
       "Decides the representation invariant 'ttl<0 iff the last Start succeeded and stop channels exist' for every path: each writer of ttl is classified (negative only on Start()==nil together with channel creation and handler start; decrement only when positive; other stores non-negative, interprocedurally through parameters), and the registry wiring (forget only on !successful&&!retry, single instance, deactivate before delete, close-once guard, Restart order, listing only active). Quantifies over all operation sequences because every transition's code is covered, not sampled traces.",
       "Not decided: reference-state-machine trace equivalence as a whole, deadlock freedom, the isActive()/deactivate race outside the mutex.",
       "DESIGN.md §3 C16")
+claim("C19",
+      "polynomial abstract interpretation of the three update formulas (exact range on the unit box) + who-may-write + guarded-call dominance + lockset/escape analysis",
+      "The value each update function stores is turned into a polynomial over the loaded values; its exact range for all inputs in [0,1] and the sign of new-old are computed in real arithmetic (vertices; univariate extrema when map keys coincide) — a proof over all real inputs, not samples; the forwarding gate (strictly greater, right maps and keys) must dominate every selection; every access to the two maps holds dataMutex on every path, interprocedurally, and the live map never leaves the region.",
+      "Not decided: IEEE rounding/denormals; premise that config and received values are in [0,1].",
+      "DESIGN.md §3 C19")
+claim("C18",
+      "lockset read-modify-write rule on guarded map entries + polynomial evaluation of every store to the copy budget + guarded-call dominance",
+      "Each read-modify-write of a bundle's budget entry must lie in one exclusive lock region (all schedules); each store to remainingCopies is evaluated symbolically: selection = r-1 (or r-floor(r/2) with the block carrying exactly that term), guarded by r>=2 and paired with exactly one selected peer; failure = r+1 / r+announced copies on every path; single peer per call for binary spray; initial budgets L/1/received. These per-step facts hold for every history because they are checked on every path of the code.",
+      "Not decided: the budget invariant over whole histories (restarts, retries across calls); only its per-step premises.",
+      "DESIGN.md §3 C18")
